@@ -19,6 +19,7 @@ Rec == ndJsonDeserialize(IOEnv.TRACE)
 NoProg == <<>>
 NoProcs == {}
 NoDebris == {}
+NoKeyShards == <<>>
 
 VARIABLES l, rn, skip, drift, nops
 
@@ -27,7 +28,7 @@ tvars == <<l, rn, skip, drift, nops, pc, loc, fs, clock, nino, aux, last>>
 Modeled(e) == e.api \in {"get", "touch", "set", "put"} /\ ~e.world
 
 \* Does recorded call e have the shape of the model's call c0?
-SamePath(a, b, lbl) == a.d = b.d /\ (a.n = b.n \/ (b.d = TD /\ lbl = "a3"))
+SamePath(a, b, lbl) == a.d = b.d /\ (a.n = b.n \/ (IsTempDir(b.d) /\ lbl = "a3"))
 FlagsOK(e, c0) == Has(e, "flags") /\ e.flags = c0.flags
 Matches(e, c0, lbl) ==
     /\ e.call = c0.call
@@ -47,12 +48,21 @@ Matches(e, c0, lbl) ==
                          /\ (lbl = "g3" => e.at = c0.at)
     /\ Has(c0, "nofollow") => Has(e, "nofollow")
 
-\* unlogged local decisions (trigger fired? temp file older than the limit?) are inferred from
-\* the call that follows: the alternatives issue distinguishable calls
-Alts(p) ==
-    IF pc[p] = "s1" THEN {DecideFire(loc[p], TRUE), DecideFire(loc[p], FALSE)}
-    ELSE IF pc[p] = "c4d" THEN {DecideOld(loc[p], TRUE), DecideOld(loc[p], FALSE)}
-    ELSE {[pc |-> pc[p], loc |-> loc[p]]}
+\* unlogged local decisions (did the trigger fire? is a temp file older than the limit? how do the in-memory load
+\* estimates order the key's two shards? is the written shard's estimate far over capacity?) are inferred from the call
+\* that follows: the alternatives issue distinguishable calls
+ShardOrders == {<<ShardDir(0), ShardDir(1)>>, <<ShardDir(1), ShardDir(0)>>}
+BindOrder(lo, o) == [lo EXCEPT !.h1 = o[1], !.h2 = o[2], !.b = o[1], !.td = TDof(o[1]), !.bound = TRUE]
+BaseAlts(p) == IF loc[p].bound THEN {loc[p]} ELSE {BindOrder(loc[p], o) : o \in ShardOrders}
+AltsOf(lbl, lo) ==
+    IF lbl = "s1" THEN {DecideFire(lo, TRUE), DecideFire(lo, FALSE)}
+    ELSE IF lbl = "s0" THEN {DecideTempClean(lo, TRUE), DecideTempClean(lo, FALSE)}
+    ELSE IF lbl = "y1" THEN {DecideOther(lo)}
+    ELSE IF lbl = "z1" THEN {DecideForced(lo, TRUE), DecideForced(lo, FALSE)}
+    ELSE IF lbl = "c4d" THEN {DecideOld(lo, TRUE), DecideOld(lo, FALSE)}
+    ELSE IF lbl = "pub" THEN {[pc |-> "p1", loc |-> lo]}
+    ELSE {[pc |-> lbl, loc |-> lo]}
+Alts(p) == UNION {AltsOf(pc[p], lo) : lo \in BaseAlts(p)}
 
 TInit ==
     /\ l = 1 /\ rn = [job |-> "", run |-> 0] /\ skip = <<>> /\ drift = <<>> /\ nops = 0
@@ -85,18 +95,17 @@ SysEvent(e) ==
 RetEvent(e) ==
     LET p == e.p IN
     IF p \notin DOMAIN pc \/ Get(skip, p, TRUE) THEN UNCHANGED <<pc, loc, drift, nops>>
-    ELSE IF pc[p] = "ret" /\ loc[p].rr.ok = e.ok
-            /\ (e.ok => loc[p].rr.res = e.res) THEN
+    ELSE IF (pc[p] = "ret" /\ loc[p].rr.ok = e.ok /\ (e.ok => loc[p].rr.res = e.res)) \/ (pc[p] = "fail" /\ ~e.ok) THEN
         /\ pc' = [pc EXCEPT ![p] = "idle"] /\ nops' = nops + 1 /\ UNCHANGED <<loc, drift>>
     ELSE /\ drift' = [seq |-> e.seq, pcl |-> pc[p], why |-> "return does not match the model", got |-> e.res]
          /\ UNCHANGED <<pc, loc, nops>>
 
 CallEvent(e) ==
     LET p == e.p IN
-    IF Modeled(e) /\ rn.front = "plain" THEN
+    IF Modeled(e) /\ rn.front = FrontKind THEN
         /\ skip' = Put(skip, p, FALSE)
-        /\ pc' = Put(pc, p, IF e.api = "get" THEN "g1" ELSE IF e.api = "touch" THEN "t1" ELSE "a1")
-        /\ loc' = Put(loc, p, [IdleLoc EXCEPT !.opi = e.opi, !.cap = rn.cap,
+        /\ pc' = Put(pc, p, IF e.api = "get" THEN "g1" ELSE IF e.api = "touch" THEN "t1" ELSE IF FrontKind = "plain" THEN "a1" ELSE "s0")
+        /\ loc' = Put(loc, p, [IdleLoc EXCEPT !.opi = e.opi, !.cap = rn.cap, !.bound = (FrontKind = "plain"), !.h1 = Root, !.h2 = Root, !.est = [bd \in BaseDirs |-> 0],
                                  !.op = [api |-> e.api, key |-> e.key, val |-> IF Has(e, "val") THEN e.val ELSE "",
                                          chunks |-> IF Has(e, "chunks") THEN e.chunks ELSE 1]])
     ELSE /\ skip' = Put(skip, p, TRUE) /\ UNCHANGED <<pc, loc>>
@@ -109,7 +118,8 @@ TNext ==
        IF e.e = "reset" THEN
             /\ rn' = [job |-> e.job, run |-> e.run,
                        front |-> IF Has(e, "cfg") /\ Has(e.cfg, "front") THEN e.cfg.front ELSE "?",
-                       cap |-> IF Has(e, "cfg") /\ Has(e.cfg, "cap") THEN e.cfg.cap ELSE 1000000]
+                       cap |-> IF Has(e, "cfg") /\ Has(e.cfg, "shardcap") /\ FrontKind = "sharded" THEN e.cfg.shardcap
+                               ELSE IF Has(e, "cfg") /\ Has(e.cfg, "cap") THEN e.cfg.cap ELSE 1000000]
             /\ skip' = <<>> /\ drift' = <<>> /\ pc' = <<>> /\ loc' = <<>> /\ nops' = 0
        ELSE IF e.e = "endrun" THEN
             /\ PrintT(<<"CONF", ToJson([job |-> rn.job, run |-> rn.run, ops |-> nops,
